@@ -238,3 +238,9 @@ impl<K> Policy<K> {
         self.lru.remove(key);
     }
 }
+
+#[cfg(any(kani, qbice_verif))]
+#[allow(dead_code, unused_imports, missing_docs, clippy::all, clippy::pedantic)]
+mod verif_hook {
+    include!(concat!(env!("QBICE_VERIF_DIR"), "/hooks/storage_tiny_lfu_policy.rs"));
+}
